@@ -45,3 +45,14 @@ check("C04", "exploration",
       [native("quick")],
       [native("thorough"), native("thorough", profile="release", name="native-release"), miri(shards=4)],
       minima=dict(NET_MINIMA, too_long_refused=100, compressed_on_wire=100, uncompressed_chunk_packets=100))
+
+check("C02", "fault_enumeration",
+      [native("quick")],
+      [native("thorough"), native("thorough", profile="release", name="native-release"), miri(shards=4)],
+      minima={"settled_histories": 100, "resend_chunks_on_wire": 100, "suffix_ticks": 100})
+
+check("C03", "exploration",
+      [native("quick")],
+      [native("thorough"), miri(shards=4)],
+      minima={"foreign_datagrams_fed": 10000, "fork_points": 500, "twin_differentials": 200,
+              "token_request_exceptions": 10, "acceptor_tokens_checked": 100, "scripted_reserved_draws": 10, "fork_states": 8})
